@@ -62,6 +62,10 @@ func (ex *Exec) writeObj(st *State, key, ref string) {
 	if !ex.assignsActive() || ex.isFreshTerm(ref) {
 		return
 	}
+	// taking and releasing a mutex is not part of a function's frame (it is released again; see DESIGN 2.7)
+	if strings.HasSuffix(key, ".held") {
+		return
+	}
 	if strings.HasPrefix(key, "F|") {
 		// ghost fields named by update clauses are writable by definition; handled via modAllowed too
 	}
